@@ -1036,7 +1036,7 @@ func genTypedProgram(r *RNG, model *CfgModel, userClasses []*GClass, n int) []*t
 				}
 			}
 			switch {
-			case want != nil && want.Untyped && r.Bool():
+			case want != nil && want.Untyped && (r.Bool() || len(want.Atoms) > 0):
 				// the parameter takes anything: pass a union of two arbitrary classes
 				a, b := Pick(r, scalarClasses), Pick(r, scalarClasses)
 				if a == b {
@@ -1050,7 +1050,8 @@ func genTypedProgram(r *RNG, model *CfgModel, userClasses []*GClass, n int) []*t
 				uv := newVar(mt(a, b))
 				add(&tStmt{Text: fmt.Sprintf("%s = flag ? %s : %s", uv.name, la, lb), Kind: "assign-union"})
 				// ... or of three or four: wider than any union the declaration spells out
-				for k := 0; k < 2 && r.Bool(); k++ {
+				// (for a declared union with an untyped member: more variants than the declaration has)
+				for k := 0; k < 4 && (len(uv.ty.Atoms) < len(want.Atoms)+2 && len(want.Atoms) > 0 || r.Chance(1, 3)); k++ {
 					c := Pick(r, scalarClasses)
 					if contains(uv.ty.Atoms, c) {
 						continue
